@@ -166,6 +166,9 @@ func (rec *gffRecord) writeGFF(r *rand.Rand) string {
 	if r.Intn(3) == 0 {
 		width = []int{1, 2, 60, 70, 80}[r.Intn(5)]
 	}
+	if r.Intn(6) == 0 {
+		width = len(rec.Seq) + 1 // the whole sequence on one line, however long
+	}
 	for i := 0; i < len(rec.Seq); i += width {
 		e := i + width
 		if e > len(rec.Seq) {
